@@ -560,6 +560,9 @@ func Match(d *m.Design, a *m.Attr, sent, got value.V, wire bool, path string) st
 	}
 	if unsetSent {
 		switch {
+		case def != nil && !sent.IsNil() && emptyColl(sent) && !emptyColl(*def) && !wire && got.Canon() == def.Canon():
+			// an explicitly empty array or map is not "unset": only a nil one gets the default
+			return fmt.Sprintf("%s: an explicitly empty collection arrived as the default %s", orRoot(path), def.Canon())
 		case def != nil && got.Canon() == def.Canon():
 			return ""
 		case def != nil && wire && unsetGot:
